@@ -10,3 +10,10 @@ package types
 //@ func (tx StdTx) ValidateBasic() (err sdk.Error)
 //@   props C03
 //@   ensures err == nil ==> valid(tx.Fee) && len(tx.Signature.Signature) != 0
+
+// C03: the sign bytes are the sorted JSON of the amino-JSON sign document built from exactly (chain id, fee, memo,
+// message sign bytes, entropy) - the four encoders are assumed (spec/extern/value_types.go.txt); that the document is
+// built from these five inputs and goes through THAT encoder is verified here (seeds C03a/C03d swapped the encoder).
+//@ func StdSignBytes(chainID string, entropy int64, fee sdk.Coins, msg sdk.Msg, memo string) (bz []byte, err error)
+//@   props C03 C20
+//@   ensures err == nil ==> bz == sign_bytes(chainID, entropy, fee, msg, memo)
